@@ -68,6 +68,7 @@ type Div struct {
 	Aspect string `json:"aspect"`
 	Desc   string `json:"desc"`
 	Step   int    `json:"step"`
+	Soft   bool   `json:"soft,omitempty"` // the walk can go on after this one
 }
 
 // KeyVariants are the relations a "different" callback ID may have to K1.
@@ -138,7 +139,8 @@ type ctlRun struct {
 }
 
 func (c *ctlRun) div(prop, aspect, format string, a ...any) {
-	c.res.Divs = append(c.res.Divs, Div{Prop: prop, Aspect: aspect, Desc: fmt.Sprintf(format, a...), Step: c.step})
+	c.res.Divs = append(c.res.Divs, Div{Prop: prop, Aspect: aspect, Desc: fmt.Sprintf(format, a...), Step: c.step,
+		Soft: aspect == "book-keeping"})
 }
 
 func isBidirSpec(k string) bool { return strings.HasPrefix(k, "B") }
@@ -161,13 +163,32 @@ func ReplayCtl(steps []CtlStep, seed int64, opt CtlOpts) (*CtlResult, error) {
 			break
 		}
 		c.res.Steps++
-		if len(c.res.Divs) > 0 {
+		hard := false
+		for _, d := range c.res.Divs {
+			if !d.Soft {
+				hard = true
+			}
+		}
+		if hard {
 			break
 		}
 	}
 	if infra == nil && len(c.res.Divs) == 0 {
 		c.final(steps)
 	}
+	// the same soft divergence at every later step is one divergence
+	seenSoft := map[string]bool{}
+	kept := c.res.Divs[:0]
+	for _, d := range c.res.Divs {
+		if d.Soft {
+			if seenSoft[d.Prop+d.Aspect] {
+				continue
+			}
+			seenSoft[d.Prop+d.Aspect] = true
+		}
+		kept = append(kept, d)
+	}
+	c.res.Divs = kept
 	if err := w.Cleanup(); err != nil && infra == nil && len(c.res.Divs) == 0 {
 		infra = err
 	}
